@@ -83,6 +83,8 @@ pub fn self_test() -> Result<(), String> {
 #[derive(Clone, Debug, PartialEq, Eq)]
 pub enum Expect {
     Ok,
+    /// the caller's key source panicked inside the bulk call (injected)
+    CallerPanic,
     Dup { got: Vec<u8> },
     Ooo { prev: Vec<u8>, got: Vec<u8> },
 }
